@@ -2,7 +2,7 @@
    wire hello; (b) the client's observed decision on a scripted server flight equals Complete.client_run10 fixed env_fixed v ks:
    the negotiation core with the key selection of the tree under test (fixed = KeySharePrivateKeys.ExtraEcdhe exists,
    ks = curves of the private keys ApplyPreset retained, read from the UConn before the handshake). *)
-From UV Require Export Base.Common Model.Negotiate Model.NegotiateSess Model.NegotiateKeys Corr.NegotiateObs.
+From UV Require Export Base.Common Model.Negotiate Model.NegotiateSess Model.NegotiateKeys Model.NegotiateReport Corr.NegotiateObs.
 From UV Require Model.KeyShare Model.Complete.
 
 Inductive case :=
@@ -16,8 +16,11 @@ Inductive case :=
 Definition check (c : case) : bool :=
   match c with
   | CSync v w => synced v w
-  | CRun fixed v ks w fl o => synced v w && matches (Complete.client_run10 fixed env_fixed v ks fl) o
+  | CRun fixed v ks w fl o =>
+      synced v w && matches (Complete.client_run10 fixed env_fixed v ks fl) o
+      (* suite / group / ALPN the connection reports after the handshake returned - aborted ones included *)
+      && reports (report_gen env_fixed (eff_view fixed v ks fl) fl) o && reported_on_wire w o
   | CRunSess fixed v ks w sess ems fl o resumed =>
       synced v w && matches (client_run_sess10 fixed env_fixed v ks sess ems fl) o
-      && implb (o_complete o) (Bool.eqb resumed (did_resume env_fixed v sess fl))
+      && implb (o_complete o) (Bool.eqb resumed (did_resume env_fixed v sess fl)) && reported_on_wire w o
   end.
